@@ -2,7 +2,7 @@
 From Coq Require Import List Bool Arith Lia.
 Import ListNotations.
 From GV Require Import gen.Gen_memo C01.Heap C01.HeapLemmas C01.Model.
-From GV Require Export C01.Lemmas1 C01.Lemmas2.
+From GV Require Export C01.Lemmas1 C01.Lemmas2 C01.Lemmas3.
 
 Lemma coherent_empty : forall den, coherent den empty_state.
 Proof. intros den k a H. simpl in H. discriminate. Qed.
@@ -100,3 +100,5 @@ Qed.
 Definition eval_homomorphism := Lemmas1.eval_homomorphism.
 Definition edit_modes_sequence := Lemmas1.edit_modes_sequence.
 Definition copy_preserves_eval := Lemmas1.copy_preserves_eval.
+Definition combine_multiple_masks := Lemmas3.combine_multiple_masks.
+Definition generated_entry_points := Lemmas3.generated_entry_points.
